@@ -263,7 +263,7 @@ pub struct CfgOpts {
 
 impl Default for CfgOpts {
     fn default() -> Self {
-        Self { max_block: 32767, allow_multithread: false, experimental: false }
+        Self { max_block: 32767, allow_multithread: false, experimental: cfg!(feature = "experimental") }
     }
 }
 
